@@ -300,10 +300,12 @@ AdjustHeights(s, oc, op) ==
 EdgeOnChange(s, e, i) ==
   IF ~Ok(s) THEN s ELSE
   LET ed == s.edges[e][i] IN
-  IF ~ed.cb THEN s ELSE
+  IF ed.cb = "none" THEN s ELSE
   IF Value(s, ed.child) = NoVal THEN Fail(s, "panic:unwrap_edge_value")
-  ELSE [s EXCEPT !.cbLog = Append(@, [e |-> e, edge |-> ed.id, child |-> ed.child,
-                                       v |-> Value(s, ed.child), round |-> s.round])]
+  ELSE LET v == Value(s, ed.child)
+           st0 == SelectSeq(s.xstore[e], LAMBDA r : r.edge # ed.id)
+       IN [s EXCEPT !.cbLog = Append(@, [e |-> e, edge |-> ed.id, child |-> ed.child, v |-> v]),
+                    !.xstore[e] = Append(st0, [edge |-> ed.id, v |-> v])]
 \* run_edge_callback(child_index)
 RunEdgeCallback(s, e, ci0) ==
   IF ~Ok(s) \/ s.fireAll[e] THEN s ELSE
@@ -546,6 +548,7 @@ NewNode(s, d, scope) ==
               !.gen = Append(@, 0), !.born = Append(@, IF scope = 0 THEN 0 ELSE s.gen[scope]),
               !.edges = Append(@, <<>>), !.fstale = Append(@, FALSE), !.ninv = Append(@, 0),
               !.fireAll = Append(@, TRUE),
+              !.xprev = Append(@, 0), !.xstore = Append(@, <<>>), !.xdeps = Append(@, <<>>),
               !.setAt = Append(@, IF d.k = "var" THEN s.num ELSE -1),
               !.cell = Append(@, IF d.k = "var" THEN d.init ELSE NoVal),
               !.pend = Append(@, NoVal), !.runs = Append(@, 0),
@@ -742,8 +745,141 @@ RecomputeMain(s, n) ==
        IF v = NoVal THEN [s EXCEPT !.chain = 0] ELSE ChangeValue(s, n, v)
   ELSE [PropagateInvalidity(InvalidateNode(s, n)) EXCEPT !.chain = 0]
 
-\* before_main_computation + recompute closure for expert nodes: see the expert section
-RecomputeExpert(s, n) == Fail(s, "panic:expert_not_modelled")
+(* Expert nodes (node.rs:1133-1266; kind/expert.rs; state/expert.rs)        *)
+RunningIsChild(s, e) == s.running # 0 /\ Has(Children(s, e), s.running)
+
+\* expert_make_stale
+ExpertMakeStale(s, e) ==
+  IF ~Ok(s) \/ ~s.valid[e] THEN s ELSE
+  LET s0 == DGuard(s, RunningIsChild(s, e), "dassert:make_stale_not_child") IN
+  IF ~Ok(s0) \/ s0.fstale[e] THEN s0 ELSE
+  LET s1 == [s0 EXCEPT !.fstale[e] = TRUE] IN
+  IF Nec(s1, e) /\ ~InHeap(s1, e) THEN RchInsert(s1, e) ELSE s1
+
+\* expert_add_dependency; the new edge gets id s.ne + 1
+ExpertAddDep(s, e, child, cb) ==
+  IF ~Ok(s) \/ ~s.valid[e] THEN s ELSE
+  LET ix0 == Len(s.edges[e])
+      ed == [id |-> s.ne + 1, child |-> child, cb |-> cb, ix |-> ix0]
+      s1 == [s EXCEPT !.ne = @ + 1, !.edges[e] = Append(@, ed), !.fstale[e] = TRUE]
+  IN IF ~Nec(s1, e) THEN s1 ELSE
+     LET s2 == StateAddParent(s1, child, ix0, e)
+         s3 == DGuard(s2, NeedsCompute(s2, e), "dassert:add_dep_needs")
+     IN IF Ok(s3) /\ ~InHeap(s3, e) THEN RchInsert(s3, e) ELSE s3
+
+\* expert_swap_children_except_in_kind (1232-1260)
+SwapChildrenExceptInKind(s, e, c1, i1, c2, i2) ==
+  IF ~Ok(s) THEN s ELSE
+  IF c1 = c2 /\ "swap_same_child" \notin Fix THEN Fail(s, "panic:already_borrowed") ELSE
+  IF i1 + 1 > Len(s.pic[e]) \/ i2 + 1 > Len(s.pic[e]) THEN Fail(s, "panic:index") ELSE
+  LET p1 == s.pic[e][i1 + 1]
+      p2 == s.pic[e][i2 + 1] IN
+  IF p1 < 0 \/ p2 < 0 \/ p1 + 1 > Len(s.cip[c1]) \/ p2 + 1 > Len(s.cip[c2]) THEN Fail(s, "panic:index") ELSE
+  LET s0 == DGuard(s, s.cip[c1][p1 + 1] = i1 /\ s.cip[c2][p2 + 1] = i2, "dassert:swap_indices")
+      s1 == [s0 EXCEPT !.cip[c1][p1 + 1] = i2]
+      s2 == [s1 EXCEPT !.cip[c2][p2 + 1] = i1]
+  IN IF ~Ok(s0) THEN s0 ELSE [s2 EXCEPT !.pic[e][i1 + 1] = p2, !.pic[e][i2 + 1] = p1]
+
+\* expert_remove_dependency for the edge with id `eid`
+ExpertRemoveDep(s, e, eid) ==
+  IF ~Ok(s) \/ ~s.valid[e] THEN s ELSE
+  LET s0 == DGuard(s, RunningIsChild(s, e), "dassert:remove_dep_not_child") IN
+  IF ~Ok(s0) THEN s0 ELSE
+  IF ~\E i \in 1..Len(s0.edges[e]) : s0.edges[e][i].id = eid THEN Fail(s0, "panic:unwrap_edge_index") ELSE
+  LET pos == CHOOSE i \in 1..Len(s0.edges[e]) : s0.edges[e][i].id = eid
+      ix0 == pos - 1
+      ec == s0.edges[e][pos].child
+      last == Len(s0.edges[e])
+      last0 == last - 1
+      lc == s0.edges[e][last].child
+      s1 == IF ix0 # last0
+            THEN LET a == IF Nec(s0, e) THEN SwapChildrenExceptInKind(s0, e, ec, ix0, lc, last0) ELSE s0
+                 IN IF ~Ok(a) THEN a ELSE
+                    [a EXCEPT !.edges[e] = [@ EXCEPT ![pos] = [a.edges[e][last] EXCEPT !.ix = ix0],
+                                                     ![last] = [a.edges[e][pos] EXCEPT !.ix = last0]]]
+            ELSE s0
+      s2 == IF Ok(s1) THEN DGuard([s1 EXCEPT !.fstale[e] = TRUE], TRUE, "") ELSE s1
+      s3 == IF Ok(s2) /\ Nec(s2, e)
+            THEN LET a == CheckUnnecessary(RemoveParent(s2, ec, last0, e), ec)
+                     b == IF Ok(a) /\ ~InHeap(a, e) THEN RchInsert(a, e) ELSE a
+                 IN IF Ok(b) /\ ~b.valid[ec]
+                    THEN [b EXCEPT !.ninv[e] = IF "decr_invalid" \in Fix THEN @ - 1 ELSE @ + 1]
+                    ELSE b
+            ELSE s2
+  IN IF ~Ok(s3) THEN s3 ELSE
+     [s3 EXCEPT !.edges[e] = SubSeq(@, 1, Len(@) - 1), !.fstale[e] = TRUE]
+
+\* state/expert.rs invalidate
+ExpertInvalidate(s, e) ==
+  IF ~Ok(s) THEN s ELSE
+  LET s0 == DGuard(s, RunningIsChild(s, e), "dassert:invalidate_not_child") IN
+  IF ~Ok(s0) THEN s0 ELSE
+  PropagateInvalidity(InvalidateNode([s0 EXCEPT !.xdead = @ \cup {e}], e))
+
+\* the user's recompute closure, by construction kind
+ExpertValue(s, n) ==
+  LET d == s.def[n] IN
+  CASE d.f = "dep" ->     \* join / bind: value_cloned() of the current dependency
+         IF s.xprev[n] = 0 \/ ~\E i \in 1..Len(s.edges[n]) : s.edges[n][i].id = s.xprev[n] THEN NoVal
+         ELSE Value(s, s.edges[n][CHOOSE i \in 1..Len(s.edges[n]) : s.edges[n][i].id = s.xprev[n]].child)
+    [] d.f = "sum" ->     \* dynamic sum over what the edge callbacks stored
+         LET RECURSIVE Go(_, _)
+             Go(acc, i) == IF i > Len(s.xstore[n]) THEN acc ELSE Go((acc + s.xstore[n][i].v[2]) % K, i + 1)
+         IN I(Go(0, 1))
+
+RECURSIVE FireAll(_, _, _, _)
+FireAll(s, n, snapshot, i) ==
+  IF ~Ok(s) \/ i > Len(snapshot) THEN s ELSE
+  \* on_change of the cloned edge: uses the edge object, wherever it now sits
+  LET ed == snapshot[i]
+      s1 == IF ed.cb = "none" THEN s
+            ELSE IF Value(s, ed.child) = NoVal THEN Fail(s, "panic:unwrap_edge_value")
+            ELSE LET v == Value(s, ed.child)
+                     st0 == SelectSeq(s.xstore[n], LAMBDA r : r.edge # ed.id)
+                 IN [s EXCEPT !.cbLog = Append(@, [e |-> n, edge |-> ed.id, child |-> ed.child, v |-> v]),
+                              !.xstore[n] = Append(st0, [edge |-> ed.id, v |-> v])]
+  IN FireAll(s1, n, snapshot, i + 1)
+
+\* before_main_computation (kind/expert.rs:168-189) + recompute
+RecomputeExpert(s, n) ==
+  IF s.ninv[n] > 0
+  THEN [PropagateInvalidity(InvalidateNode(s, n)) EXCEPT !.chain = 0]
+  ELSE LET s1 == [s EXCEPT !.fstale[n] = FALSE]
+           s2 == IF s1.fireAll[n]
+                 THEN FireAll([s1 EXCEPT !.fireAll[n] = FALSE], n, s1.edges[n], 1) ELSE s1
+       IN IF ~Ok(s2) THEN s2 ELSE
+          LET v == ExpertValue(s2, n) IN
+          IF v = NoVal THEN Fail(s2, "panic:expert_user_unwrap")
+          ELSE ChangeValue(LogInv(s2, n, <<>>), n, v)
+
+(* Controlling map nodes of the expert constructions of tests/expert.rs and  *)
+(* incremental-map: what the user's closure does with the expert API, as data *)
+RECURSIVE CtlSum(_, _, _, _)
+CtlSum(s, e, ins, want) ==
+  \* make the dependency list of the dynamic sum e equal to the first `want` nodes of ins
+  IF ~Ok(s) THEN s ELSE
+  LET have == Len(s.xdeps[e]) IN
+  IF have < want
+  THEN LET s1 == ExpertAddDep(s, e, ins[have + 1], "store")
+       IN IF ~Ok(s1) THEN s1 ELSE CtlSum([s1 EXCEPT !.xdeps[e] = Append(@, s1.ne)], e, ins, want)
+  ELSE IF have > want
+  THEN LET eid == s.xdeps[e][have]
+           s1 == ExpertRemoveDep(s, e, eid)
+       IN IF ~Ok(s1) THEN s1 ELSE
+          CtlSum([s1 EXCEPT !.xdeps[e] = SubSeq(@, 1, have - 1),
+                            !.xstore[e] = SelectSeq(@, LAMBDA r : r.edge # eid)], e, ins, want)
+  ELSE s
+RunCtl(s, n, x) ==
+  LET c == s.def[n].ctl IN
+  CASE c.mode = "join" ->
+         \* dep = add_dependency(rhs); remove_dependency(prev); prev = dep
+         LET s1 == ExpertAddDep(s, c.x, x[2], "none")
+             dep == s1.ne
+             s2 == IF Ok(s1) /\ s.xprev[c.x] # 0 THEN ExpertRemoveDep(s1, c.x, s.xprev[c.x]) ELSE s1
+         IN IF Ok(s2) THEN [s2 EXCEPT !.xprev[c.x] = dep] ELSE s2
+    [] c.mode = "sum" -> CtlSum(s, c.x, c.ins, x[2])
+    [] c.mode = "stale" -> ExpertMakeStale(s, c.x)
+    [] c.mode = "invalidate" -> IF x[2] = 1 THEN ExpertInvalidate(s, c.x) ELSE s
 
 RecomputeOne(s0, n) ==
   IF ~Ok(s0) THEN s0 ELSE
@@ -758,7 +894,8 @@ RecomputeOne(s0, n) ==
          LET x == Value(s, d.ins[1]) IN
          IF x = NoVal THEN Fail(s, "panic:unwrap_value") ELSE
          LET s1 == RunEffects(LogInv(s, n, <<x>>), d.eff, 1, n)
-         IN ChangeValue(s1, n, ApplyMap(d, x))
+             s2 == IF "ctl" \in DOMAIN d THEN RunCtl(s1, n, x) ELSE s1
+         IN ChangeValue(s2, n, IF "ctl" \in DOMAIN d THEN Unit ELSE ApplyMap(d, x))
     [] d.k = "map2" ->
          LET x == Value(s, d.ins[1])
              y == Value(s, d.ins[2]) IN
@@ -924,6 +1061,7 @@ InitState(maxH) ==
    scope |-> <<>>, cutoff |-> <<>>, force |-> <<>>, nobs |-> <<>>, numH |-> <<>>,
    inHas |-> <<>>, mrDid |-> <<>>, rhs |-> <<>>, created |-> <<>>, gen |-> <<>>, born |-> <<>>,
    edges |-> <<>>, fstale |-> <<>>, ninv |-> <<>>, fireAll |-> <<>>,
+   xprev |-> <<>>, xstore |-> <<>>, xdeps |-> <<>>, ne |-> 0, xdead |-> {},
    setAt |-> <<>>, cell |-> <<>>, pend |-> <<>>,
    \* observers
    no |-> 0, onode |-> <<>>, ostate |-> <<>>, osubs |-> <<>>, onext |-> <<>>, oclones |-> <<>>,
@@ -963,6 +1101,24 @@ ApiZip(s, a, b) ==
 ApiDependOn(s, a, on) ==
   LET s1 == ApiMap2(s, "fst", a, on) IN
   IF Ok(s1) THEN [s1 EXCEPT !.cutoff[s1.n] = [c |-> "dep", in |-> a]] ELSE s1
+\* expert::Node::new (state/expert.rs:8-31) in the current scope
+ApiExpert(s, f) == NewNode(s, [k |-> "expert", f |-> f], s.curScope)
+\* Node::add_dependency(_with) called outside stabilise (construction time)
+ApiAddDep(s, e, child, cb) == ExpertAddDep(s, e, child, cb)
+\* join(incr) of tests/expert.rs: expert node E (id n+1), controlling map L (id n+2), E depends on L
+ApiXJoin(s, in) ==
+  LET s1 == ApiExpert(s, "dep")
+      e == s1.n
+      s2 == NewNode(s1, [k |-> "map", f |-> "id", cap |-> NoVal, ins |-> <<in>>, eff |-> <<>>,
+                         ctl |-> [mode |-> "join", x |-> e]], s1.curScope)
+  IN ExpertAddDep(s2, e, s2.n, "none")
+\* dynamic sum of the first sel-many nodes of ins
+ApiXSum(s, sel, ins) ==
+  LET s1 == ApiExpert(s, "sum")
+      e == s1.n
+      s2 == NewNode(s1, [k |-> "map", f |-> "id", cap |-> NoVal, ins |-> <<sel>>, eff |-> <<>>,
+                         ctl |-> [mode |-> "sum", x |-> e, ins |-> ins]], s1.curScope)
+  IN ExpertAddDep(s2, e, s2.n, "none")
 ApiBind(s, lhs, recipe) == NewBind(s, lhs, recipe, s.curScope)
 ApiSetCutoff(s, n, c) == [s EXCEPT !.cutoff[n] = c]
 
